@@ -12,7 +12,12 @@ def run(c):
     counts = None
     if c["counts"]:
         counts = {}
-        for i in sorted(set(c["pattern"])):
+        order = sorted(set(c["pattern"]))
+        if c.get("corder") == "rev":
+            order.reverse()
+        elif c.get("corder") == "rot":
+            order = order[1:] + order[:1]
+        for i in order:
             counts[d[i]] = c["pattern"].count(i)
     common = c["common"]
     if c.get("npkeys"):
